@@ -260,6 +260,29 @@ func RunScript(c *ScriptCase) *ScriptOutcome {
 		return fail("requests", fmt.Sprintf("after start: missing %v extra %v", miss, extra), gs)
 	}
 
+	// persistent waiter: WaitUntilComplete called right after the start and kept
+	// for the whole run; examined at every fixpoint - it must not have returned
+	// true while the model still holds a token or a request is pending
+	pwCtx, pwCancel := context.WithCancel(context.Background())
+	defer pwCancel()
+	pw := make(chan bool, 1)
+	go func() { pw <- in.P.WaitUntilComplete(pwCtx) }()
+	pwDone := false
+	checkEarly := func(after string) *ScriptOutcome {
+		if pwDone {
+			return nil
+		}
+		select {
+		case v := <-pw:
+			pwDone = true
+			if v && !m.Done() {
+				return fail("complete-early", fmt.Sprintf("after %s: WaitUntilComplete returned true, model still holds tokens (armed %v pending %v)", after, m.Armed(), m.PendingIDs()), nil)
+			}
+		default:
+		}
+		return nil
+	}
+
 	// issue performs the engine side of a non-burst stimulus; returns a channel closed when the call returned
 	issue := func(s Stim, node string) chan struct{} {
 		done := make(chan struct{})
@@ -516,11 +539,17 @@ func RunScript(c *ScriptCase) *ScriptOutcome {
 		if r := runStim(s); r != nil {
 			return r
 		}
+		if r := checkEarly(s.String()); r != nil {
+			return r
+		}
 	}
 	if c.Drain {
 		for guard := 0; len(m.Pending) > 0 && guard < 200; guard++ {
 			// skip interrupted requests' answers? they are no-ops in the model and must be in the engine
 			if r := runStim(Stim{Kind: "answer", Pick: 0, Ans: c.DrainAns}); r != nil {
+				return r
+			}
+			if r := checkEarly("a drain answer"); r != nil {
 				return r
 			}
 		}
